@@ -132,6 +132,9 @@ def obligations(tier):
             gb = sorted(int(k) for k in cfg)
             obs.append(Ob('generic/%s/%s' % (name, enc), roundtrip(lambda gb=gb: list(gb), enc, False, cfgs=cfg), 600,
                           'caller-supplied configuration %s: %s' % (name, {k: (v['field_type'], v['field_length']) for k, v in cfg.items()}), _funcs))
+    for enc in (('latin_1',) if q else CODECS):
+        obs.append(Ob('pds-keys/%s' % enc, roundtrip(lambda: [2, 'PDS0105', 'PDS0146', 'PDS0158'], enc, False, maxvar=992), 600,
+                      'DE2 plus three PDSxxxx entries, every combination of value lengths 0..992 (one to three carriers)', _funcs))
     import itertools as _it
     subsets = [[8], [28], [8, 28], [3, 8, 28]]
     obs.append(Ob('generic/g-decimal/latin_1', roundtrip(lambda: list(choose('subset', subsets)), 'latin_1', False, cfgs=GENERIC_DEC), 300,
